@@ -340,13 +340,42 @@ def run(C, R):
             closes = [i for i, e in enumerate(path.events) if e['k'] == 'call' and e['name'] == 'close'
                       and 'GenericChannel' in e['callee']]
             clears = [i for i, e in enumerate(path.events) if e['k'] == 'call' and e['name'] == 'clear']
-            if closes and not (clears and clears[0] > closes[0]):
+            subs = [e for e in path.events if e['k'] == 'call' and e['name'] == 'fetch_sub']
+            last = any(const_of(E, path.facts, e['ret']) == 1 for e in subs)
+            if last and not clears:
                 R.fail('C11.R6', ['GenericReceiver', 'last-receiver-does-not-clear'],
-                       'the last mpmc receiver closes the channel without discarding buffered values afterwards',
-                       '%s:%s' % (rd[0][3]['file'], rd[0][3]['line']))
-            elif closes:
-                R.ok('C11.R6', 'GenericReceiver|clear-after-close|%s' % path_cond(E, path))
+                       'a path on which the last mpmc receiver is dropped (fetch_sub(1) == 1) returns without '
+                       'discarding the buffered values [%s]' % path_cond(E, path),
+                       '%s:%s' % (rd[0][3]['file'], rd[0][3]['line']), {'trace': trace_summary(path)})
+            elif closes and not (clears and clears[0] > closes[0]):
+                R.fail('C11.R6', ['GenericReceiver', 'clear-before-close'],
+                       'the last mpmc receiver discards buffered values before closing: a concurrent send could '
+                       'still be accepted afterwards', '%s:%s' % (rd[0][3]['file'], rd[0][3]['line']))
+            elif last:
+                R.ok('C11.R6', 'GenericReceiver|last receiver: clear after close|%s' % path_cond(E, path))
             elif clears:
-                R.fail('C11.R6', ['GenericReceiver', 'clear-without-close'],
+                R.fail('C11.R6', ['GenericReceiver', 'clear-without-last'],
                        'buffered values are discarded while other receivers are alive',
                        '%s:%s' % (rd[0][3]['file'], rd[0][3]['line']))
+        # R5b: the converse of the counted close - the LAST handle of a side does close, unless the path
+        # has observed that the other side is already gone (its last drop closed the channel)
+        for a, f, shared, dropfn in handles:
+            hname = a['path'].split('::')[-1]
+            for path in E.run(dropfn['path']):
+                if path.exit != 'return':
+                    continue
+                subs = [e for e in path.events if e['k'] == 'call' and e['name'] == 'fetch_sub']
+                if not subs:
+                    continue   # uncounted (non-Clone) handles close unconditionally: checked by R5
+                last = any(const_of(E, path.facts, e['ret']) == 1 for e in subs)
+                if not last:
+                    continue
+                closes = [e for e in path.events if e['k'] == 'call' and e['name'] == 'close' and e.get('mode') == 'inline']
+                other_gone = any(e['k'] == 'call' and e['name'] == 'load' and const_of(E, path.facts, e['ret']) == 0
+                                 for e in path.events)
+                if closes or other_gone:
+                    R.ok('C11.R5', '%s|last handle closes|%s' % (hname, path_cond(E, path)))
+                else:
+                    R.fail('C11.R5', [hname, 'last-handle-does-not-close'],
+                           'a path on which the last %s is dropped (fetch_sub(1) == 1) does not close the channel' %
+                           hname, '%s:%s' % (dropfn['file'], dropfn['line']), {'trace': trace_summary(path)})
